@@ -295,12 +295,19 @@ def part_a(facts, res):
     kws1 = sorted(set(text for (term, text) in strmodel.eq_vars() if term[0] == "field" and term[2] == 1))
     res.inventory["first_field_keywords"] = kws0
     res.inventory["cmd_keywords"] = kws1
+    precise = not ip.unknown_callees
     res.ob(kws0 == ["cmd", "ioport", "u8"])
     if kws0 != ["cmd", "ioport", "u8"]:
-        res.finding("dispatch|keywords", "first-field keywords are %r, the protocol has cmd/u8/ioport" % kws0)
+        if kws0 and precise:
+            res.finding("dispatch|keywords", "first-field keywords are %r, the protocol has cmd/u8/ioport" % kws0)
+        else:
+            res.errors.append("the first-field keywords could not be read off the code (%r): not decidable" % kws0)
     res.ob(kws1 == ["pause", "start", "stop"])
     if kws1 != ["pause", "start", "stop"]:
-        res.finding("dispatch|cmd-keywords", "cmd keywords are %r, the protocol has pause/start/stop" % kws1)
+        if kws1 and precise:
+            res.finding("dispatch|cmd-keywords", "cmd keywords are %r, the protocol has pause/start/stop" % kws1)
+        else:
+            res.errors.append("the cmd keywords could not be read off the code (%r): not decidable" % kws1)
 
 
 def part_b(facts, res):
